@@ -13,6 +13,7 @@ import (
 	"math/big"
 	"reflect"
 	"runtime"
+	"strings"
 	"sync"
 	"time"
 
@@ -53,6 +54,7 @@ type PropSpec struct {
 }
 
 type Runner struct {
+	goSeq     int
 	genInvs   int   // invocations of the random generation phase in the current run, and the time they took
 	genNs     int64 // (what Check's early-exit estimate near a test deadline is based on)
 	rec       *Recorder
@@ -81,21 +83,64 @@ type barrier struct {
 	need    int
 	arrived int
 	release chan struct{}
+	every   bool          // rendezvous at every arrival (point name ended in "*")
+	waiting chan struct{} // the goroutine waiting for a partner
+	goAt    time.Time
 }
 
 var theBarrier barrier
 
 func (r *Runner) setBarrier(point string, n int) {
 	theBarrier.mu.Lock()
-	theBarrier.point, theBarrier.need, theBarrier.arrived = point, n, 0
+	theBarrier.every = strings.HasSuffix(point, "*")
+	theBarrier.point, theBarrier.need, theBarrier.arrived = strings.TrimSuffix(point, "*"), n, 0
 	theBarrier.release = make(chan struct{})
+	theBarrier.waiting = nil
 	theBarrier.mu.Unlock()
+}
+
+// rendezvous: with a point name ending in "*" every arrival at the gate waits briefly for a second goroutine to arrive there too
+// (possible only if the code lets two goroutines into that section at once), and both go on together.
+func (b *barrier) rendezvous() {
+	spin := func(until time.Time) { // both leave the gate at (nearly) the same instant
+		for time.Now().Before(until) {
+		}
+	}
+	if ch := b.waiting; ch != nil {
+		b.waiting = nil
+		b.goAt = time.Now().Add(100 * time.Microsecond)
+		until := b.goAt
+		close(ch)
+		b.mu.Unlock()
+		spin(until)
+		return
+	}
+	ch := make(chan struct{})
+	b.waiting = ch
+	b.mu.Unlock()
+	select {
+	case <-ch:
+		b.mu.Lock()
+		until := b.goAt
+		b.mu.Unlock()
+		spin(until)
+	case <-time.After(300 * time.Microsecond):
+		b.mu.Lock()
+		if b.waiting == ch {
+			b.waiting = nil
+		}
+		b.mu.Unlock()
+	}
 }
 
 // GateFn is installed with rapid.VerifSetGate.
 func GateFn(point string) {
 	b := &theBarrier
 	b.mu.Lock()
+	if b.point != "" && b.point == point && b.every {
+		b.rendezvous()
+		return
+	}
 	if b.point == "" || b.point != point || b.arrived >= b.need {
 		b.mu.Unlock()
 		return
@@ -137,6 +182,7 @@ type inv struct {
 	top   int       // id of the enclosing property-function invocation
 	ctxs  *[]ctxRef // every context obtained in this invocation (shared with sub-scripts)
 	g     int       // goroutine tag (0 = the goroutine running the property)
+	grp   int       // > 0 inside the goroutines of one "go" op: what they register concurrently has no defined order among itself
 	quiet bool      // do not record the steps of this script (ungated race-detector runs)
 	vars  map[string]any
 	last  string
@@ -375,7 +421,13 @@ func (in *inv) step(op *Op) {
 			t.Cleanup(func() {})
 			break
 		}
-		r.rec.Emit("cleanup.reg", F{"inv": in.id, "id": id, "g": in.g})
+		r.rec.Emit("cleanup.reg", F{"inv": in.id, "id": id, "g": in.g, "grp": in.grp})
+		in := in
+		if in.grp != 0 {
+			c := *in
+			c.grp = 0 // what the cleanup function itself registers is ordered again
+			in = &c
+		}
 		t.Cleanup(func() {
 			r.rec.Emit("cleanup.run", F{"inv": in.id, "id": id})
 			r.mu.Lock()
@@ -432,6 +484,10 @@ func (in *inv) step(op *Op) {
 			n = 1
 		}
 		start := make(chan struct{})
+		r.mu.Lock()
+		r.goSeq++
+		grp := r.goSeq
+		r.mu.Unlock()
 		if op.Val != "" {
 			r.setBarrier(op.Val, n)
 			defer r.setBarrier("", 0)
@@ -441,7 +497,7 @@ func (in *inv) step(op *Op) {
 			g := g
 			go func() {
 				defer wg.Done()
-				sub := &inv{r: r, t: t, id: in.id, top: in.top, vars: in.vars, ctxs: in.ctxs, g: g + 1, quiet: op.Text == "quiet"}
+				sub := &inv{r: r, t: t, id: in.id, top: in.top, vars: in.vars, ctxs: in.ctxs, g: g + 1, grp: grp, quiet: op.Text == "quiet"}
 				<-start
 				for rep := 0; rep < 1+op.Ms; rep++ {
 					sub.run(op.Body)
